@@ -197,6 +197,7 @@ func Preset(prop string, adversarial bool, r *scen.Rand) *Params {
 		p.RaceP = 1
 		p.JSONOpt = 0.4
 		p.UpdateOpt = 0.3
+		p.FaultP = 0.15 // a failing call must not change what later calls through the same Config do
 	case "C17":
 		p.Counts = []int{1, 1, 1, 2, 3}
 		p.APIw = map[string]int{scen.APIJSON: 4, scen.APIYAML: 3, scen.APISJSON: 3, scen.APISnapshot: 1}
@@ -217,6 +218,8 @@ func Preset(prop string, adversarial bool, r *scen.Rand) *Params {
 		p.Counts = []int{1, 2, 3}
 		p.RecordCount = []int{1, 2, 3}
 		p.MaxCalls = 5
+		p.TasksP = 0.25 // standalone snapshots taken by parallel tests
+		p.RaceP = 0.6
 		p.ReplayP = 0.9
 	case "C20":
 		p.Alpha = Alpha{Plain: 8, Framing: 2, Structured: 2}
